@@ -85,33 +85,7 @@ class C18:
     # -----------------------------------------------------------------------------------------------------------
     @staticmethod
     def twin_tweaks(rnd, prog, wb):
-        """(step index, parameter, other value) changes that give a near-twin of a program: same steps, one parameter changed"""
-        tweaks = []
-        for si, (n_, p_) in enumerate(prog):
-            if p_.get("filter_method") == "bilateral":
-                same_width = {0.4: 0.5, 0.7: 0.8, 1.0: 1.3, 1.3: 1.0, 2.0: 2.2, 3.0: 3.2}
-                tweaks.append((si, "sigma_space", same_width.get(p_.get("sigma_space", 6.0), 6.2)))
-                tweaks.append((si, "sigma_color", p_.get("sigma_color", 2.0) + 1.5))
-            elif p_.get("filter_method") == "median":
-                tweaks.append((si, "filter_size", 5 if p_.get("filter_size", 3) != 5 else 3))
-            elif "matching_cost_method" in p_ and p_["matching_cost_method"] != "census":
-                tweaks.append((si, "window_size", 3 if p_.get("window_size", 5) != 3 else 5))
-                if p_.get("band"):
-                    from sim.world import BAND_NAMES
-
-                    others = [b_ for b_ in (wb.get("band_names") or BAND_NAMES)[: wb["bands"]] if b_ != p_["band"]]
-                    if others:
-                        tweaks.append((si, "band", rnd.choice(others)))
-                        tweaks.append((si, "band", rnd.choice(others)))
-            elif p_.get("confidence_method") in ("ambiguity", "risk"):
-                tweaks.append((si, "eta_max", 0.5 if p_.get("eta_max", 0.7) != 0.5 else 0.33))
-            elif "aggregation_method" in p_:
-                tweaks.append((si, "cbca_distance", 2 if p_.get("cbca_distance", 5) != 2 else 3))
-            elif "validation_method" in p_:
-                tweaks.append((si, "cross_checking_threshold", 2.5 if p_.get("cross_checking_threshold", 1.0) != 2.5 else 0))
-            elif p_.get("refinement_method"):
-                tweaks.append((si, "refinement_method", "vfit" if p_["refinement_method"] == "quadratic" else "quadratic"))
-        return tweaks
+        return programs.twin_tweaks(rnd, prog, wb)
 
     def gen_twin_pair(self, rnd):
         """
